@@ -142,6 +142,23 @@ impl Cx {
     }
 }
 
+/// A context for a nested run inside an enumeration phase, with its own scratch directory.
+pub fn sub_cx(cx: &Cx, scratch: PathBuf) -> Cx {
+    Cx {
+        tier: cx.tier,
+        scratch,
+        replay: cx.replay,
+        only_inner: None,
+        evals: 0,
+        nontrivial: false,
+        labels: vec![],
+        inner_nontrivial: 0,
+        excluded_known: 0,
+        known_hits: vec![],
+        known: Arc::clone(&cx.known),
+    }
+}
+
 #[derive(Debug, Clone, Serialize, Deserialize)]
 pub struct KnownFinding {
     pub property: String,
